@@ -116,4 +116,47 @@ theorem parseRec_replicate_fail (c : Config) (z f : TField) (v0 : FieldValue)
   | zero => simp [v9ParseRec, hf]
   | succ k ih => simp only [List.replicate_succ, List.cons_append, v9ParseRec, hz, ih]
 
+/-- with every declared length ≥ 1 the (saturating) record size is at least the number of fields, up to the saturation bound -/
+theorem v9TotalSize_ge_aux (fs : List TField) (hpos : ∀ f ∈ fs, 1 ≤ f.len) :
+    ∀ acc, min (acc + fs.length) 65535 ≤ fs.foldl (fun acc f => min (acc + f.len) 65535) acc := by
+  induction fs with
+  | nil => intro acc; simp only [List.length_nil, Nat.add_zero, List.foldl_nil]; omega
+  | cons f fs ih =>
+    intro acc
+    have h1 := hpos f (by simp)
+    have h2 := ih (fun g hg => hpos g (by simp [hg])) (min (acc + f.len) 65535)
+    simp only [List.foldl_cons, List.length_cons]
+    omega
+
+theorem v9TotalSize_ge (fs : List TField) (hpos : ∀ f ∈ fs, 1 ≤ f.len) (hk : fs.length ≤ 65535) :
+    fs.length ≤ v9TotalSize fs := by
+  have := v9TotalSize_ge_aux fs hpos 0
+  unfold v9TotalSize
+  omega
+
+theorem v9RecWorkStop_le_iters (c : Config) (fs : List TField) (n : Nat) (i : Bytes) :
+    v9RecWorkStop c fs n i ≤ fs.length * n := by
+  induction n generalizing i with
+  | zero => simp [v9RecWorkStop]
+  | succ n ih =>
+    have ha := v9RecAttempts_le c fs i
+    simp only [v9RecWorkStop, Nat.mul_add, Nat.mul_one]
+    cases h : v9ParseRec c fs 0 i with
+    | none => simp only []; omega
+    | some p => obtain ⟨r, i'⟩ := p; simp only []; have := ih i'; omega
+
+theorem v9RecWorkRetry_le_iters (c : Config) (fs : List TField) (n : Nat) (i : Bytes) :
+    v9RecWorkRetry c fs n i ≤ 2 * (fs.length * n) := by
+  induction n generalizing i with
+  | zero => simp [v9RecWorkRetry]
+  | succ n ih =>
+    have ha := v9RecAttempts_le c fs i
+    simp only [v9RecWorkRetry, Nat.mul_add, Nat.mul_one]
+    cases h : v9ParseRec c fs 0 i with
+    | none => simp only []; have := ih i; omega
+    | some p => obtain ⟨r, i'⟩ := p; simp only []; have := ih i'; omega
+
+theorem fields_times_iters_le (k total b : Nat) (hk : k ≤ total) : k * (b / total) ≤ b :=
+  Nat.le_trans (Nat.mul_le_mul_right _ hk) (Nat.mul_div_le b total)
+
 end Netflow.P6
